@@ -1,5 +1,6 @@
 import GffProofs.Props.C09
 import GffProofs.Props.C09b
+import GffProofs.Props.C09c
 open GffProofs.C09
 #print axioms vote_spec
 #print axioms vote_unanimous
@@ -19,3 +20,13 @@ open GffProofs.C09
 #print axioms lineSpec_fmt_gtf
 #print axioms consistent_file_dialect
 #print axioms consistent_file_fmt
+#print axioms openDb_dialect_head
+#print axioms openDb_inv
+#print axioms createDb_tables
+#print axioms update_tables
+#print axioms update_reopen_dialect
+#print axioms step_tables
+#print axioms history_tables
+#print axioms history_dialect
+#print axioms update_eq_via
+#print axioms history_update_branch
